@@ -13,6 +13,7 @@ import (
 	"path/filepath"
 	"sort"
 	"strconv"
+	"strings"
 	"sync"
 )
 
@@ -72,6 +73,12 @@ func For(prop string) *Recorder {
 	r.out.Exhaustive = map[string]int64{}
 	r.out.Seed = Seed()
 	r.out.Shard, _ = strconv.Atoi(os.Getenv("VERIF_SHARD"))
+	for _, a := range os.Args {
+		if strings.HasPrefix(a, "-test.fuzzworker") {
+			// native fuzzing runs the fuzz function in worker processes: one stats / replay file per worker
+			r.out.Shard = r.out.Shard*1000000 + os.Getpid()%1000000
+		}
+	}
 	reg[prop] = r
 	return r
 }
